@@ -28,6 +28,7 @@ ASSUMPTIONS = [
 ]
 BOUNDS = {"quick": {"prepend_step": 1, "variants": "core"}, "thorough": {"prepend_step": 1, "variants": "full"}}
 E_LFANEW = (0x40, 0x80, 0xF8, 0x3F8)
+E_LFANEW_THOROUGH = (0x44, 0x48, 0x100, 0x200, 0x3FC)
 MZ = (b"MZ", b"MZRE", b"MZAR", b"\x4d\x5a\x41\x52", b"\x90\x90\x41\x42")
 PEM = (b"PE\x00\x00", b"De\x00\x00", b"\x01\x02\x03\x04")
 
@@ -37,7 +38,7 @@ def plan(tier, seed):
     for part in range(32):
         ch.append({"key": f"prepend/{part}", "kind": "prepend", "part": part, "cost": 3000})
     for arch in ("x86", "x64"):
-        for lf in E_LFANEW:
+        for lf in E_LFANEW + (E_LFANEW_THOROUGH if tier == "thorough" else ()):
             ch.append({"key": f"params/{arch}/{lf:x}", "kind": "params", "arch": arch, "lf": lf, "cost": 800})
     ch.append({"key": "xorview", "kind": "xorview", "cost": 1500})
     for part in range(8):
@@ -127,7 +128,7 @@ def chunk_prepend(chunk, acc):
         p = base_params(arch=arch, lf=lf, prepend=b"\x90" * n, append=b"TAIL" if n % 3 == 0 else b"", mz=MZ[n % len(MZ)])
         blob = build(p)
         check_image(acc, lambda: io.BytesIO(blob), p, "prepend")
-        if n <= 70:
+        if n <= 70 or (acc.tier == "thorough" and n % 3 == part % 3):
             for filler in (b"\x00", b"\xcc", b"\x41", None):
                 pre = (filler * n) if filler else bytes(lcg(n, acc.seed + n))
                 p2 = base_params(arch=arch, lf=lf, prepend=pre)
